@@ -46,6 +46,14 @@ impl<V> Node<V> {
         let mut max_prefix_item = None;
 
         for i in 0..self.children.len() {
+            // A child holding exactly this regex must receive the item, even when the regex is
+            // not longer than this node prefix, otherwise the same (regex, id) is stored twice
+            if self.children[i].regex() == regex {
+                max_prefix_item = Some(i);
+
+                break;
+            }
+
             let prefix_size = common_prefix_char_size(regex, self.children[i].regex());
 
             if prefix_size > max_prefix_size {
